@@ -20,8 +20,7 @@ What the parser does with the *payloads* follows what was measured on Qt 5.15.8'
     run is tested *after* entity decoding (`<a>&#32;</a>` has no child);
   - `]]>` in text, a bare `&`, `<` in an attribute value and the non-characters U+FFFE/U+FFFF
     are errors; control characters are accepted; `>` is accepted in text and values.
-  - namespace declarations are ordinary attributes for the parser; the WRITER puts their value out
-    unescaped (`renderAttrs` in Tree.lean), which is why `nsValuesOK` exists.
+  - namespace declarations are ordinary attributes for the parser and for `render`.
 Names are XML 1.0 names restricted to ASCII (`:` is an ordinary name character at this layer;
 `qdomView` models what namespace processing does with prefixes and `xmlns` attributes).
 
@@ -307,23 +306,9 @@ mutual
     | k :: ks => namesOK k && namesOKList ks
 end
 
-/-- characters a namespace URI may consist of if it is to survive being written verbatim
-(`renderAttrs`): XML-legal and none of `"`, `<`, `&` -/
-def plainNsChar (c : Char) : Bool := legalChar c && c != '"' && c != '<' && c != '&'
-
-def nsAttrsOK (as : List (Str × Str)) : Bool :=
-  as.all fun kv => !isNsDecl kv.1 || kv.2.all plainNsChar
-
-mutual
-  /-- the VALUES of namespace declarations (`xmlns`, `xmlns:p`) are plain; says nothing about any
-  other attribute value or text.  Needed only because Qt writes namespace URIs unescaped. -/
-  def nsValuesOK : Node → Bool
-    | .text _ => true
-    | .elem _ as ks => nsAttrsOK as && nsValuesOKList ks
-  def nsValuesOKList : List Node → Bool
-    | [] => true
-    | k :: ks => nsValuesOK k && nsValuesOKList ks
-end
+/-- characters `escAttr` copies unchanged: XML-legal and none of `< > & "` TAB LF CR -/
+def plainAttrChar (c : Char) : Bool :=
+  legalChar c && c != '<' && c != '>' && c != '&' && c != '"' && c != '\t' && c != '\n' && c != '\r'
 
 def Node.isText : Node → Bool
   | .text _ => true
@@ -340,13 +325,12 @@ def noAdjText : List Node → Bool
 
 mutual
   /-- trees that survive a write/read cycle unchanged: names are names, every character is one the
-  writer lets through, namespace URIs are plain (`nsAttrsOK`), text nodes are non-blank (QDom drops white-space-only text; CR/LF/TAB inside
+  writer lets through, text nodes are non-blank (QDom drops white-space-only text; CR/LF/TAB inside
   a non-blank text are kept by Qt 5.15.8 and therefore allowed here), no two adjacent text nodes -/
   def wellFormed : Node → Bool
     | .text s => s.all legalChar && !blank s
     | .elem n as ks =>
-      okName n && as.all (fun kv => okName kv.1 && kv.2.all legalChar) && nsAttrsOK as
-        && wellFormedList ks && noAdjText ks
+      okName n && as.all (fun kv => okName kv.1 && kv.2.all legalChar) && wellFormedList ks && noAdjText ks
   def wellFormedList : List Node → Bool
     | [] => true
     | k :: ks => wellFormed k && wellFormedList ks
@@ -356,8 +340,6 @@ end
 abbrev NamesOK (t : Node) : Prop := namesOK t = true
 /-- see `wellFormed` -/
 abbrev WellFormed (t : Node) : Prop := wellFormed t = true
-/-- see `nsValuesOK` -/
-abbrev NsValuesOK (t : Node) : Prop := nsValuesOK t = true
 
 /-- `s` begins with one of the seven references `QXmlStreamWriter` emits -/
 def startsEntity (s : Str) : Bool :=
